@@ -387,6 +387,9 @@ class C01(Property):
         f = payload_check(out)
         if f:
             return Failure(f"undisplayable/{where}", f)
+        f = iterm_stretch_check(out)
+        if f:
+            return Failure(f"letterbox/{where}", f)
         if kind == "konsole":
             # the library's quirk table: Konsole places the cursor after an inline image differently from iTerm2 unless
             # the image carries doNotMoveCursor=1 (the terminal model follows the iTerm2 rule for the other kinds only)
@@ -399,6 +402,21 @@ class C01(Property):
             if f:
                 return Failure(f"{f[0]}/{where}", f"{f[1]} (terminal {W}x{H}, cursor at row {row} col {x}, top {top})")
         return None
+
+
+_ITERM_FILE = re.compile(r"\x1b\]1337;File=([^:\x1b]*):")
+
+
+def iterm_stretch_check(out: str):
+    """the inline-image protocol fits an image INSIDE its width x height cell box keeping the aspect ratio unless
+    `preserveAspectRatio=0` is given: only then does the image cover the whole box (the terminal model's `iterm` token
+    covers cols x rows, i.e. it speaks about stretched images)"""
+    for m in _ITERM_FILE.finditer(out):
+        keys = dict(i.split("=", 1) for i in m.group(1).split(";") if "=" in i)
+        if keys.get("preserveAspectRatio") != "0":
+            return ("an inline image is sent without preserveAspectRatio=0: the terminal letterboxes it inside the "
+                    f"{keys.get('width')}x{keys.get('height')} cell box, so the rectangle is not covered")
+    return None
 
 
 _KITTY_TX = re.compile(r"\x1b_G([^;\x1b]*);([^\x1b]*)\x1b\\")
